@@ -9,6 +9,7 @@ from typing import (
     Optional,
     Sequence,
     Tuple,
+    Type,
     TypeVar,
     Union,
     cast,
@@ -51,6 +52,12 @@ Resolver = Callable[..., Any]
 T = TypeVar("T")
 G = TypeVar("G")
 E = TypeVar("E", bound=Exception)
+
+# Exceptions raised while resolving a field which are reported as field errors
+# rather than aborting the execution: the documented ResolverError and the
+# coercion errors of lazily coerced inputs (directive arguments read through
+# ``ResolveInfo.get_directive_arguments``).
+_FIELD_ERRORS = cast(Type[Exception], (CoercionError, ResolverError))
 
 
 class Executor(ResolutionContext):
@@ -189,10 +196,13 @@ class Executor(ResolutionContext):
                         )
                     ),
                     complete,
-                    else_=(ResolverError, fail),
+                    # Coercion errors can be raised from within a resolver
+                    # when it reads lazily coerced inputs such as directive
+                    # arguments (``info.get_directive_arguments``).
+                    else_=(_FIELD_ERRORS, fail),
                 )
             )
-        except ResolverError as err:
+        except _FIELD_ERRORS as err:
             return fail(err)
 
     def _iterate_fields(
